@@ -13,6 +13,12 @@ a function on the listing.  The definitions follow the code (after the `fix:` co
 * `select` collects, in the order requested, the indexes of the requested names that exist.
 * `distinct` keeps a row unless an equal row has been seen.
 * `batches` cuts the listing every `size` rows; `collect` is the column-major transpose.
+
+Round 2: the comprehensions of `select`, the membership test of `take`, the limit normalisation of
+`collect` (+ the truncation test of `collect_cython`) and the `range`/window of `to_batches` are the
+*generated* definitions of `Gen.Frame` (regenerated from the working tree on every run); the
+hand-written reference functions (`indexOf`, `batchesAux`, …) remain as the specification side and the
+lemmas of `Lemmas/Frame.lean` tie the two.
 -/
 namespace Frame
 
@@ -67,7 +73,7 @@ def filter : List α → List Bool → List α
 
 /-- `take(indexes)`: row `i` is kept iff `i in indexes` (negative indexes never match). -/
 def take (rows : List α) (idxs : List Int) : List α :=
-  pick (fun i => decide ((i : Int) ∈ idxs)) rows
+  pick (fun i => decide (Gen.Frame.takeTest (i : Int) idxs)) rows
 
 def query (rows : List α) (p : α → Bool) : List α := rows.filter p
 
@@ -77,12 +83,14 @@ def indexOf (names : List String) (a : String) : Option Nat :=
   | [] => none
   | n :: ns => if n = a then some 0 else (indexOf ns a).map (· + 1)
 
-/-- `select`: header and source indexes, in the order requested, of the requested names that exist. -/
-def selectHeader (names attrs : List String) : List String := attrs.filter (fun a => decide (a ∈ names))
+/-- `select`: header and source indexes, in the order requested, of the requested names that exist
+(`new_header`, `attribute_indices` and the row projection are the generated comprehensions;
+`names` is `list(self._schema)`). -/
+def selectHeader (names attrs : List String) : List String := Gen.Frame.selectHeader names attrs
 
-def selectIdx (names attrs : List String) : List Nat := (selectHeader names attrs).filterMap (indexOf names)
+def selectIdx (names attrs : List String) : List Nat := Gen.Frame.selectIndices names (selectHeader names attrs)
 
-def project (idxs : List Nat) (row : List α) : List α := idxs.filterMap (row[·]?)
+def project (idxs : List Nat) (row : List α) : List α := Gen.Frame.selectProject idxs row
 
 def select (names : List String) (rows : List (List α)) (attrs : List String) : List String × List (List α) :=
   (selectHeader names attrs, rows.map (project (selectIdx names attrs)))
@@ -100,13 +108,31 @@ def batchesAux (size : Nat) : Nat → List α → List (List α)
   | fuel + 1, rows =>
     if rows.isEmpty then [] else rows.take size :: batchesAux size fuel (rows.drop size)
 
-def batches (rows : List α) (size : Nat) : List (List α) := batchesAux size rows.length rows
+/-- Reference chunking (specification side of `batches`). -/
+def chunks (rows : List α) (size : Nat) : List (List α) := batchesAux size rows.length rows
 
-/-- Effective number of rows for `collect`'s limit (`None`/negative = all). -/
-def limitRows (n : Nat) (limit : Option Int) : Nat :=
+/-- Python `range(start, stop, step)` for a positive step. -/
+def pyRange (start stop step : Int) : List Int :=
+  if step ≤ 0 then []
+  else (List.range (((stop - start).toNat + step.toNat - 1) / step.toNat)).map fun (j : Nat) => start + (j : Int) * step
+
+/-- `to_batches(size)` as the code computes it: one window `rows[lower : upper]` per element of the
+generated `range`. -/
+def batches (rows : List α) (size : Nat) : List (List α) :=
+  (pyRange (Gen.Frame.batchRangeStart rows.length size) (Gen.Frame.batchRangeStop rows.length size)
+      (Gen.Frame.batchRangeStep rows.length size)).map
+    fun i => pySlice rows (Gen.Frame.batchLower i size) (Gen.Frame.batchUpper i size)
+
+/-- `collect`: the limit after `if limit is None or <neg test>: limit = <all value>`. -/
+def effLimit (limit : Option Int) : Int :=
   match limit with
-  | none => n
-  | some l => if l < 0 then n else min l.toNat n
+  | none => Gen.Frame.collectAllValue
+  | some l => if Gen.Frame.collectNegTest l then Gen.Frame.collectAllValue else l
+
+/-- Effective number of rows for `collect`'s limit: `collect_cython` truncates `num_rows` to the
+limit only under the generated test. -/
+def limitRows (n : Nat) (limit : Option Int) : Nat :=
+  if Gen.Frame.collectTruncTest (effLimit limit) n then (effLimit limit).toNat else n
 
 /-- `collect(columns, limit)`: `result[i][j] = rows[j][columns[i]]` for the first `limit` rows;
 `none` when a column index is out of range for some row (the real code raises). -/
